@@ -83,6 +83,11 @@ type Exec struct {
 
 // SetRequestOf builds the gNMI request for a list of operations
 func SetRequestOf(ops []refmodel.Op, sync bool, usePrefixTarget bool, opt ...bool) *gnmi.SetRequest {
+	return SetRequestVariant(0, ops, sync, usePrefixTarget, opt...)
+}
+
+// SetRequestVariant: variant selects among the placements of accompanying extensions
+func SetRequestVariant(variant int, ops []refmodel.Op, sync bool, usePrefixTarget bool, opt ...bool) *gnmi.SetRequest {
 	serializable := len(opt) > 0 && opt[0]
 	req := &gnmi.SetRequest{}
 	single := len(targetsOf(ops)) == 1 && usePrefixTarget
@@ -138,7 +143,7 @@ func SetRequestOf(ops []refmodel.Op, sync bool, usePrefixTarget bool, opt ...boo
 		unknown := &gnmi_ext.Extension{Ext: &gnmi_ext.Extension_RegisteredExt{RegisteredExt: &gnmi_ext.RegisteredExtension{Id: 999, Msg: []byte{0xff, 0x01}}}}
 		hist := &gnmi_ext.Extension{Ext: &gnmi_ext.Extension_History{History: &gnmi_ext.History{}}}
 		noOverrides := &gnmi_ext.Extension{Ext: &gnmi_ext.Extension_RegisteredExt{RegisteredExt: &gnmi_ext.RegisteredExtension{Id: configapi.TargetVersionOverridesID}}}
-		switch len(ops) % 4 {
+		switch variant % 4 {
 		case 0:
 			req.Extension = append([]*gnmi_ext.Extension{arb}, req.Extension...)
 		case 1:
@@ -177,7 +182,7 @@ func (e *Exec) IssueSet(ops []refmodel.Op, sync bool, opt ...bool) *Call {
 	inc := e.W.Cur()
 	call := &Call{N: len(e.Calls) + 1, Kind: "set", Ops: ops, Sync: sync, Inc: inc.N, done: make(chan struct{})}
 	e.Calls = append(e.Calls, call)
-	req := SetRequestOf(ops, sync, call.N%3 == 0, serializable, call.N%2 == 0, (call.N+e.caseIndex())%5 < 2)
+	req := SetRequestVariant((call.N+e.caseIndex())/5, ops, sync, call.N%3 == 0, serializable, call.N%2 == 0, (call.N+e.caseIndex())%5 < 2)
 	ctx, cancel := context.WithCancel(context.Background())
 	e.mu.Lock()
 	e.cancels = append(e.cancels, cancel)
